@@ -507,10 +507,47 @@ def o177(ctx):
             ctx.finding(q, w, "the object must be updated (images removed / sorted) before it is written", w, m)
 
 
+def o1712(ctx):
+    """mdoc values: what the reader makes of the text after `key =` (followed on literal texts, sa/concrete.py).  Whole numbers and decimal
+    numbers come back as numbers, everything else as the text itself, stripped -- in particular texts that only look like numbers to
+    int() / float() (digit groups joined by underscores, 'nan', 'inf') stay text: they are labels, file names and dates, and a written
+    mdoc must re-read to the same entries.  Negative numbers and exponents are left open (today they stay text)."""
+    from sa.concrete import LiteralInterp, Raised
+    q = "mdoc.Mdoc._format_value"
+    m, fn = ctx.prog.func(q)
+    ctx.touched(q)
+    probes = [("12_3", "12_3"), ("0017_0003", "0017_0003"), ("2023_06_06", "2023_06_06"), (" NaN", "NaN"), ("nan", "nan"), ("inf", "inf"), ("Infinity", "Infinity"),
+              (" 1_0.5", "1_0.5"), (" 12", 12), ("0", 0), (" 1.5 ", 1.5), ("300.0", 300.0), ("abc ", "abc"), (" a b", "a b"), ("1.2.3", "1.2.3"),
+              ("SerialEM: Digitized on ...", "SerialEM: Digitized on ..."), ("D:\\frames\\ts_01.tif", "D:\\frames\\ts_01.tif")]
+    undecided = None
+    for text, want in probes:
+        try:
+            r = LiteralInterp(ctx.prog).run(q, [K(text)], {})
+        except Raised as e:
+            ctx.count(1)
+            ctx.finding(q, e.node, f"the value text {text!r} makes the reader raise (line {getattr(e.node, 'lineno', '?')})", e.node, m)
+            continue
+        except Unsupported as e:
+            undecided = undecided or e
+            continue
+        ctx.count(1, {"text": text, "value": repr(pyval(r.ret)) if is_pyconst(r.ret) else str(r.ret)[:40]})
+        if not is_pyconst(r.ret):
+            undecided = undecided or Unsupported(f"_format_value({text!r}) does not give a literal value", fn)
+            continue
+        got = pyval(r.ret)
+        if type(got) is not type(want) or got != want:
+            ctx.finding(q, f"value text {text!r}", f"the entry `key = {text.strip()}` is read as {got!r} ({type(got).__name__}); it must come back as "
+                        f"{want!r} ({type(want).__name__}): a label, file name or date that only looks like a number to int() / float() is text, "
+                        "and the written mdoc must re-read to the same entry", fn, m)
+    if undecided is not None and not ctx.cur.findings:
+        raise undecided
+
+
 def _obligations():
     return [
         Obligation("O17.10", "dimensions_load: an N x 4 table comes back as given, one triplet is repeated per listed tomogram (shared with C09)", _c09.o99, floor=10),
         Obligation("O17.11", "gctf defocus files: the STAR reader followed on literal texts (shared with C02)", _star.o26, floor=230),
+        Obligation("O17.12", "mdoc values: whole and decimal numbers become numbers, every other text (labels, names, dates, nan / inf) stays text", o1712, floor=15),
         Obligation("O17.8", "z_shift_load(number) hands the value back unchanged, Python number or numpy scalar", o178, floor=2),
         Obligation("O17.9", "wedge lists on disk: the STAR writer's header and row text read back to the table (shared with C02)",
                    lambda ctx: (_star.o23(ctx), _star.o25(ctx)), floor=200),
